@@ -7,6 +7,7 @@ import (
 	"fmt"
 	"go/token"
 	"go/types"
+	"strings"
 
 	"golang.org/x/tools/go/ssa"
 )
@@ -85,6 +86,7 @@ func init() {
 			return nil
 		}
 	}
+	_ = errRes
 	stubs = map[string]stubFn{
 		"errors.New": func(a *Act, st *State, callee *ssa.Function, args []Term, pos token.Pos) []Term {
 			// a new error whose Error() is the given text
@@ -93,7 +95,18 @@ func init() {
 			a.tr.assume(Implies(st.reach, Eq(app("spec_errorString", r), args[0])), "errors.New(s).Error() == s")
 			return []Term{r}
 		},
-		"fmt.Errorf": errRes("errorf"),
+		"fmt.Errorf": func(a *Act, st *State, callee *ssa.Function, args []Term, pos token.Pos) []Term {
+			// a new error; with a literal format its text starts with the format's text before the first verb
+			r := a.tr.freshError(st, "errorf")
+			f := string(args[0])
+			if len(f) >= 2 && f[0] == '"' && !strings.HasPrefix(f, "\"%") {
+				if i := strings.IndexByte(f, '%'); i > 1 {
+					a.tr.eng.declareOnce(a.tr, "spec_errorString", "(declare-fun spec_errorString (Val) String)")
+					a.tr.assume(Implies(st.reach, app("str.prefixof", Term(f[:i]+"\""), app("spec_errorString", r))), "fmt.Errorf(literal format).Error() starts with the format's text before its first verb")
+				}
+			}
+			return []Term{r}
+		},
 		"fmt.Sprintf": str("sprintf"),
 		"fmt.Sprint":  str("sprint"),
 		"fmt.Sprintln": str("sprintln"),
